@@ -125,11 +125,11 @@ fn has_required_cycle(s: &ASchema) -> bool {
     false
 }
 
-struct GCase {
-    family: String,
-    schema: ASchema,
-    doc: ADoc,
-    no_serialize: bool,
+pub struct GCase {
+    pub family: String,
+    pub schema: ASchema,
+    pub doc: ADoc,
+    pub no_serialize: bool,
 }
 
 fn input_graph_case(names: &[&str], kinds: &[Vec<&'static str>], one_of: &[bool]) -> GCase {
@@ -164,7 +164,7 @@ fn input_graph_case(names: &[&str], kinds: &[Vec<&'static str>], one_of: &[bool]
     GCase { family: fam, schema, doc, no_serialize: false }
 }
 
-fn fragment_cases() -> Vec<GCase> {
+pub fn fragment_cases() -> Vec<GCase> {
     let schema = ASchema {
         types: vec![
             AType::Interface { name: "Being".into(), fields: vec![AField { name: "name".into(), ty: ATy::named("String"), dep: None }, AField { name: "pal".into(), ty: ATy::named("Being"), dep: None }] },
@@ -247,6 +247,34 @@ fn fragment_cases() -> Vec<GCase> {
             ],
             true,
         ),
+        // a NON-recursive wrapper fragment reaches the recursive one first (the recursion test of `Anc` must not
+        // depend on what was looked at before)
+        mk(
+            "lasso/wrapper-then-recursive",
+            vec![f("person", vec![sp("Summary")])],
+            vec![
+                fr("Summary", "Person", vec![leaf("name"), f("friend", vec![sp("Anc")])]),
+                fr("Anc", "Person", vec![leaf("name"), f("friend", vec![sp("Anc")])]),
+            ],
+            false,
+        ),
+        mk(
+            "lasso/two-wrappers-one-cycle",
+            vec![f("person", vec![leaf("name"), sp("W1"), f("pet", vec![sp("W2")])])],
+            vec![
+                fr("W1", "Person", vec![f("friend", vec![sp("Rec")])]),
+                fr("W2", "Animal", vec![leaf("name"), f("owner", vec![sp("Rec")])]),
+                fr("Rec", "Person", vec![leaf("name"), f("friend", vec![leaf("name"), sp("Rec")])]),
+            ],
+            true,
+        ),
+        // the fragment contains itself only underneath an inline fragment (type condition)
+        mk(
+            "interface/self-under-inline",
+            vec![f("being", vec![ASel::Typename, sp("Chain")])],
+            vec![fr("Chain", "Being", vec![ASel::Typename, leaf("name"), ASel::Inline { on: "Animal".into(), sub: vec![f("owner", vec![f("pal", vec![ASel::Typename, sp("Chain")])])] }])],
+            true,
+        ),
         mk(
             "self/variant-spread",
             vec![f("being", vec![ASel::Typename, sp("PV")])],
@@ -260,7 +288,7 @@ pub fn run(a: &Args) -> i32 {
     let mut rep = Report::new(
         "C12",
         a,
-        "directed graphs of input object types: all 625 edge-kind assignments of 2-node graphs (incl. self loops; edge kinds none / T / T! / [T] / [T!]!) sampled in the quick tier and complete in the thorough tier, random 3- and 4-node graphs, @oneOf nodes; plus 9 fragment recursion patterns (self / mutual 2 and 3 / through lists / through interface variants / flattened or aliased); for each generated module: by-value containment graph of the emitted types acyclic (computed on the IR), rustc accepts it, nested recursive values round-trip; a case = one graph or pattern; non-trivial = the graph has a cycle",
+        "directed graphs of input object types: all 625 edge-kind assignments of 2-node graphs (incl. self loops; edge kinds none / T / T! / [T] / [T!]!) sampled in the quick tier and complete in the thorough tier, random 3- and 4-node graphs, @oneOf nodes; plus 12 fragment recursion patterns (self / mutual 2 and 3 / through lists / through interface variants / only underneath an inline fragment / a non-recursive wrapper reaching the recursive fragment first / two wrappers sharing one cycle / flattened or aliased); every second case with skip_serializing_none; for each generated module: by-value containment graph of the emitted types acyclic (computed on the IR), rustc accepts it, nested recursive values round-trip; a case = one graph or pattern; non-trivial = the graph has a cycle",
     );
     let mut rng = Rng::new(a.seed);
     let mut ctx = CaseCtx::new();
@@ -304,6 +332,8 @@ pub fn run(a: &Args) -> i32 {
         let sdl = c.schema.to_sdl(&RenderKnobs::default());
         let q = c.doc.render();
         let mut opts = Opts::harness();
+        // every second case runs with skip_serializing_none: a boxed member must be omitted like an unboxed one
+        opts.skip_none = idx % 2 == 1;
         if c.no_serialize {
             opts.response_derives = Some("Debug,PartialEq".into());
         }
@@ -388,6 +418,10 @@ pub fn run(a: &Args) -> i32 {
                     // explicit nulls for omitted nullable members are allowed; compare without nulls
                     if drop_nulls(&canon_numbers(&body["variables"])) != drop_nulls(&canon_numbers(input)) {
                         rep.fail("indirection-visible-in-json", case.clone());
+                    }
+                    // with skip_serializing_none no null may be written at all, boxed member or not
+                    if *idx % 2 == 1 && canon_numbers(&body["variables"]) != drop_nulls(&canon_numbers(input)) {
+                        rep.fail("indirection-visible-in-json:null-written-under-skip-none", case.clone());
                     }
                 }
                 (Reply::Ok(reser), "de") => {
